@@ -345,6 +345,35 @@ func (t *tr) expr(e ast.Expr) string {
 			}
 			return t.fail("errors.New %s", src(v))
 		}
+		// a method without arguments called on a freshly built object, `(&Element{field: a.field, val: X}).reduce()`:
+		// an uninterpreted function of the object's `val`
+		if len(v.Args) == 0 {
+			if sel, ok := v.Fun.(*ast.SelectorExpr); ok {
+				var lit ast.Expr = sel.X
+				if pe, ok := lit.(*ast.ParenExpr); ok {
+					lit = pe.X
+				}
+				if ue, ok := lit.(*ast.UnaryExpr); ok && ue.Op == token.AND {
+					lit = ue.X
+				}
+				if cl, ok := lit.(*ast.CompositeLit); ok {
+					for _, el := range cl.Elts {
+						if kv, ok := el.(*ast.KeyValueExpr); ok && src(kv.Key) == "val" {
+							name := "new_" + src(cl.Type) + "_" + sel.Sel.Name
+							if !t.extraSet[name] {
+								t.extraSet[name] = true
+								t.extra = append(t.extra, name)
+								if t.extraTy == nil {
+									t.extraTy = map[string]string{}
+								}
+								t.extraTy[name] = "Nat → Nat"
+							}
+							return "(" + name + " " + t.argExpr(kv.Value) + ")"
+						}
+					}
+				}
+			}
+		}
 		// selector call without arguments on a parameter: a field-like observation
 		if len(v.Args) == 0 {
 			if m, ok := t.selector(v); ok {
@@ -1161,6 +1190,7 @@ var suffixList = []suffixSpec{
 	{"primefield.Field.ElementFromSigned", "val %= int(f.char)", "core"},
 	{"binfield.Element.Add", "a.val ^= bb.val", "core"},
 	{"binfield.Element.Prod", "res := uint(0)", "core"},
+	{"binfield.Element.Inv", "r0 := a.field.conwayPoly", "core"},
 }
 
 func translateSuffix(f *fn, spec suffixSpec, known map[string]string, retTypes map[string]string) string {
